@@ -11,7 +11,7 @@ from .numcommon import arr_tokens, float_pool, model_ints
 from ..plans import sum_plan, plan_term
 from ..core import zlist
 
-FLOAT_SUMS = {"mean", "wmean", "cm3", "ent", "kl", "sql2"}
+FLOAT_SUMS = {"mean", "wmean", "cm3", "ent", "kl", "sql2", "cross", "klab", "l1"}
 
 
 def parse_bundle(raw):
@@ -95,6 +95,8 @@ class C20(Prop):
             s = float(sum(abs(x - m) ** 3 for x in a)) / n + 3 * sc * float(sum((x - m) ** 2 for x in a)) / n
         elif stat in ("ent", "kl"):
             s = sum(abs(y * math.log(y)) for y in case.b if y > 0) + 1e-300
+        elif stat in ("cross", "klab"):
+            s = sum(abs(y) * (abs(math.log(abs(x) + 0.5)) + abs(math.log(y)) + 1) for x, y in zip(case.a, case.b) if y > 0) + 1e-300
         else:
             s = max(abs(v) for v in vals)
         return 128 * (n + 13) * u * s + 1e-300
